@@ -5,6 +5,7 @@
 package sim
 
 import (
+	"sync"
 	"encoding/binary"
 	"hash/fnv"
 )
@@ -163,11 +164,16 @@ func DetBytes(domain string, idx uint64, k int) []byte {
 }
 
 // DetReader is a deterministic io.Reader (replacement for crypto/rand.Reader in sims).
-type DetReader struct{ r *SplitMix64 }
+type DetReader struct {
+	mu sync.Mutex
+	r  *SplitMix64
+}
 
 func NewDetReader(seed uint64) *DetReader { return &DetReader{r: NewSplitMix64(seed)} }
 
 func (d *DetReader) Read(p []byte) (int, error) {
+	d.mu.Lock()
+	defer d.mu.Unlock()
 	var b [8]byte
 	for i := 0; i < len(p); {
 		binary.LittleEndian.PutUint64(b[:], d.r.Next())
